@@ -73,7 +73,7 @@ class State(object):
         self.pc = []
         self.sig = []
         self.ghost = {}
-        self.nalloc = 0
+        self.aptr = ALLOC0             # next free reference (z3 Int term)
         self.exc_stack = []
         self.types = {}            # z3 ast id -> python class (static knowledge about instances)
         self.obligations = []
@@ -90,7 +90,7 @@ class State(object):
         s.pc = list(self.pc)
         s.sig = list(self.sig)
         s.ghost = dict(self.ghost)
-        s.nalloc = self.nalloc
+        s.aptr = self.aptr
         s.exc_stack = list(self.exc_stack)
         s.types = dict(self.types)
         s.obligations = list(self.obligations)
@@ -116,8 +116,8 @@ class State(object):
         self.heap[field] = z3.Store(self.field_arr(field), ref, value)
 
     def alloc(self, pycls=None):
-        ref = ALLOC0 + self.nalloc
-        self.nalloc += 1
+        ref = self.aptr
+        self.aptr = z3.simplify(self.aptr + 1)
         if pycls is not None:
             self.pc.append(C.cls_of(ref) == z3.IntVal(C.cid(pycls)))
         v = V.VObj(ref)
@@ -287,8 +287,8 @@ class Executor(object):
 
     def env_exc(self, st, base=Exception, label="envexc"):
         """an exception object raised by the environment: any class below `base`."""
-        ref = ALLOC0 + st.nalloc
-        st.nalloc += 1
+        ref = st.aptr
+        st.aptr = z3.simplify(st.aptr + 1)
         c = C.cls_of(ref)
         st.assume(C.subclass(c, base))
         for ax in C.unknown_class_axioms(c):
